@@ -579,7 +579,7 @@ func runEventPlan(t *testing.T, planAny any, ctl Ctl) *Result {
 		sig = append(sig, fmt.Sprintf("%s%d", op.Kind, op.L+op.V))
 	}
 	bubble(t, res, func() {
-		s := zzsim.New(ctl.Seed, p.Pol)
+		s := zzsim.New(ctl.Seed, racePol(p.Pol))
 		if ctl.Replay != nil {
 			s.SetReplay(ctl.Replay, ctl.Guided)
 		}
@@ -600,7 +600,9 @@ func runEventPlan(t *testing.T, planAny any, ctl Ctl) *Result {
 					l := op.L
 					unsubs[l] = ev.Subscribe(func(v int) {
 						zzsim.Yield("harness:event-delivery")
+						resMu.Lock()
 						delivered = append(delivered, deliv{l, v})
+						resMu.Unlock()
 					})
 					live[l] = true
 				case "unsub":
@@ -840,7 +842,7 @@ func runCompPlan(t *testing.T, planAny any, ctl Ctl) *Result {
 	history := strings.Join(sig, " ; ")
 	bubble(t, res, func() {
 		metrics.Global = metrics.NewMetrics()
-		s := zzsim.New(ctl.Seed, p.Pol)
+		s := zzsim.New(ctl.Seed, racePol(p.Pol))
 		if ctl.Replay != nil {
 			s.SetReplay(ctl.Replay, ctl.Guided)
 		}
@@ -879,12 +881,12 @@ func runCompPlan(t *testing.T, planAny any, ctl Ctl) *Result {
 		// recording subscribers on a few properties (the "every component that follows them" clause)
 		var calls []string
 		subs := []event.Unsubscribe{
-			cfg.Cache.MaxCacheSize.OnChange(func(v bytesize.ByteSize) { calls = append(calls, fmt.Sprintf("max=%d", v.Bytes())) }),
-			cfg.Cache.CleanupInterval.OnChange(func(v duration.Duration) { calls = append(calls, fmt.Sprintf("interval=%d", int64(v))) }),
-			cfg.Cache.Memory.MemoryBudgetPercent.OnChange(func(v int) { calls = append(calls, fmt.Sprintf("mem=%d", v)) }),
-			cfg.Logging.Level.OnChange(func(v slog.Level) { calls = append(calls, fmt.Sprintf("level=%d", int(v))) }),
-			cfg.Cache.Type.OnChange(func(v config.CacheType) { calls = append(calls, "type="+string(v)) }),
-			cfg.Proxy.Listen.OnChange(func(v string) { calls = append(calls, "listen="+v) }),
+			cfg.Cache.MaxCacheSize.OnChange(func(v bytesize.ByteSize) { lockedAppend(&calls, fmt.Sprintf("max=%d", v.Bytes())) }),
+			cfg.Cache.CleanupInterval.OnChange(func(v duration.Duration) { lockedAppend(&calls, fmt.Sprintf("interval=%d", int64(v))) }),
+			cfg.Cache.Memory.MemoryBudgetPercent.OnChange(func(v int) { lockedAppend(&calls, fmt.Sprintf("mem=%d", v)) }),
+			cfg.Logging.Level.OnChange(func(v slog.Level) { lockedAppend(&calls, fmt.Sprintf("level=%d", int(v))) }),
+			cfg.Cache.Type.OnChange(func(v config.CacheType) { lockedAppend(&calls, "type="+string(v)) }),
+			cfg.Proxy.Listen.OnChange(func(v string) { lockedAppend(&calls, "listen="+v) }),
 		}
 		_ = subs
 		s.Unexempt()
@@ -1143,6 +1145,12 @@ func rapidTag(p *CompPlan) string {
 		return " (back-to-back changes, notifications reordered)"
 	}
 	return ""
+}
+
+func lockedAppend(calls *[]string, s string) {
+	resMu.Lock()
+	defer resMu.Unlock()
+	*calls = append(*calls, s)
 }
 
 func overrideTag(p *CompPlan, what string) string {
